@@ -6,12 +6,13 @@ import pickle
 import types
 
 from .. import budget, judge as J, par, sweep
-from ..repo import tad, reverse_dfs, NOSOL
+from ..repo import tad, reverse_dfs, conditionalrewards, NOSOL
 
 PROP = "C10"
 OPS = ("same-object/prune", "same-object/no-prune", "fresh-object/prune", "fresh-object/no-prune",
        "component/validate", "component/count",
-       "debuglog-fresh-object/prune", "debuglog-fresh-object/no-prune")      # component/*: check_game + init_states, count_transitions on the persistent object; debuglog-*: the solve runs with the
+       "debuglog-fresh-object/prune", "debuglog-fresh-object/no-prune",
+       "batch/run_games")      # batch/run_games: conditionalrewards.run_games on a one-entry dictionary holding the caller's description itself; component/*: check_game + init_states, count_transitions on the persistent object; debuglog-*: the solve runs with the
 # root logger at DEBUG level (the tool's -l d option) - a configuration that must not change any result
 CPU = 0.3
 
@@ -63,6 +64,11 @@ class World:
 
     def apply(self, op):
         where, mode = op.split("/")
+        if where == "batch":
+            def fn():
+                res = conditionalrewards.run_games({"x": self.desc})
+                return {k: {f: v for f, v in e.items() if f != "total_time"} for k, e in res.items()}
+            return ("batch",) + outcome_of(fn)
         if where == "component":
             if mode == "validate":
                 def fn():
@@ -115,6 +121,39 @@ def reference_in_fresh_process(pristine):
     return pickle.loads(data)
 
 
+BATCH_FIELDS = ("final_strategies", "reachability_strategies", "rewards", "probabilities", "n_iterations_reach", "n_iterations_rew",
+                "prob_min_rew", "rew_min_reach")      # the order of the tuple returned by StochasticGame.solve()
+
+
+def batch_differs(res, ref):
+    """res = ("batch", status, value) of one run_games call; ref = the per-mode solo outcomes; returns an explanation or None"""
+    _, st, val = res
+    if st == "timeout" or "timeout" in (ref[True][0], ref[False][0]):
+        return None
+    if st != "ok":
+        if ref[True][0] == "exc" and not ref[True][1].startswith("ValueError"):
+            return None          # the solo solve raises something run_games does not catch either
+        if ref[True][0] == "ok" and ref[False][0] == "exc" and not ref[False][1].startswith("ValueError"):
+            return None
+        return "the batch run raised %s" % (val,)
+    if sorted(val) != ["x", "x_no_prune"]:
+        return "entries %r instead of x and x_no_prune" % (sorted(val),)
+    for prune, name in ((True, "x"), (False, "x_no_prune")):
+        e = val[name]
+        if ref[prune][0] == "ok" and (prune or ref[True][0] == "ok"):
+            got = tuple(e[f] for f in BATCH_FIELDS)
+            if e["msg"] != "Game solved" or got != tuple(ref[prune][1]):
+                return "entry %s = %r / %r, solving alone gives %r" % (name, e["msg"], got, ref[prune][1])
+        elif prune and ref[True][0] == "exc" and ref[True][1].startswith("ValueError: "):
+            want = "Error while solving the game: " + ref[True][1][len("ValueError: "):]
+            if e["msg"] != want:
+                return "entry %s carries %r, expected %r" % (name, e["msg"], want)
+        elif not prune and ref[True][0] == "exc":
+            if e["msg"] != "Game not solved":
+                return "entry %s carries %r, expected 'Game not solved'" % (name, e["msg"])
+    return None
+
+
 def explore(pristine, depth):
     """BFS over histories with de-duplication of canonical states; returns (findings, states, transitions, closed)"""
     ref = reference_in_fresh_process(pristine)
@@ -141,9 +180,15 @@ def explore(pristine, depth):
                                  "after the solve history %s the caller's description differs from what was passed in"
                                  % (list(hist) + [op],), list(hist) + [op]))
                 return findings, len(seen), transitions, False
-            if res[0] == "timeout":
+            if res[0] == "timeout" or res[:2] == ("batch", "timeout"):
                 continue
-            if res[0] == "aux":
+            if res[0] == "batch":
+                why = batch_differs(res, ref)
+                if why:
+                    findings.append(("C10/batch-result-differs", repr(res[1:])[:600], repr(ref)[:600],
+                                     "after the history %s, run_games on the same description: %s" % (list(hist), why), list(hist) + [op]))
+                    return findings, len(seen), transitions, False
+            elif res[0] == "aux":
                 want = len(pristine["players"]) if op.endswith("validate") else sum(len(r) for r in pristine["transition_list"])
                 if res[1] != want:
                     findings.append(("C10/component-result-differs", repr(res[1]), repr(want),
@@ -244,8 +289,8 @@ def work(shard):
     return out
 
 
-RULE = ("for every stopping game of the listed universes: breadth-first exploration of all histories over the 8 operations ({same object, fresh "
-        "object} x {pruned, unpruned} solves, check_game+init_states and count_transitions on the persistent object, and fresh-object solves with the root logger at DEBUG level) on ONE caller-owned description, states = canonical deep snapshot of (description, persistent object's "
+RULE = ("for every stopping game of the listed universes: breadth-first exploration of all histories over the 9 operations ({same object, fresh "
+        "object} x {pruned, unpruned} solves, check_game+init_states and count_transitions on the persistent object, fresh-object solves with the root logger at DEBUG level, and conditionalrewards.run_games on a one-entry dictionary holding the description itself, whose two entries must equal the solo results) on ONE caller-owned description, states = canonical deep snapshot of (description, persistent object's "
         "attributes, non-callable module globals of tad and reverse_dfs), de-duplicated; depth bound per tier; after every operation the "
         "description must equal the pristine copy and the result must equal (==) the result of that mode computed once in a forked fresh "
         "process; 'closed' = no unexplored state remained at the depth bound, so the claim extends to histories of any length; "
@@ -316,6 +361,8 @@ def replay(case):
     if canon(w.desc) != canon(game):
         return "description mutated after %s: %r" % (hist, w.desc)
     prune = hist[-1].endswith("/prune")
+    if res[0] == "batch":
+        return batch_differs(res, ref)
     if res[0] == "aux":
         want = len(game["players"]) if hist[-1].endswith("validate") else sum(len(r) for r in game["transition_list"])
         return None if res[1] == want else "component call returned %r instead of %r" % (res[1], want)
